@@ -597,6 +597,69 @@ func (p *gprover) condFacts(c ssa.Value, truth bool) []gfact {
 		}
 	case *ssa.BinOp:
 		op := x.Op
+		// `err == nil` for the error result of a module function: the slice results of the same call then come from
+		// the returns whose error is nil — if those all hand back one and the same constant length, that is the length
+		// (a splitter that returns (nil, err) or (three parts, nil))
+		if (op == token.EQL && truth) || (op == token.NEQ && !truth) {
+			for _, pr := range [][2]ssa.Value{{x.X, x.Y}, {x.Y, x.X}} {
+				ex, isEx := pr[0].(*ssa.Extract)
+				if !isEx || !isNilConst(pr[1]) || !isErrorType(ex.Type()) {
+					continue
+				}
+				cl, isCall := ex.Tuple.(*ssa.Call)
+				if !isCall {
+					continue
+				}
+				g := cl.Call.StaticCallee()
+				if g == nil || g.Blocks == nil || !p.c.inModule(g) || cl.Referrers() == nil {
+					continue
+				}
+				var out []gfact
+				for _, ref := range *cl.Referrers() {
+					sib, ok := ref.(*ssa.Extract)
+					if !ok || sib.Index == ex.Index {
+						continue
+					}
+					if _, isSl := sib.Type().Underlying().(*types.Slice); !isSl {
+						continue
+					}
+					L, n, okAll := int64(-1), 0, true
+					gp := &gprover{c: p.c, fn: g}
+					instrs(g, func(in ssa.Instruction) {
+						rt, isRt := in.(*ssa.Return)
+						if !isRt || !okAll {
+							return
+						}
+						ops := retOperands(rt)
+						if sib.Index >= len(ops) || ex.Index >= len(ops) {
+							okAll = false
+							return
+						}
+						if !isNilConst(ops[ex.Index]) {
+							// a return whose error may be non-nil: it must be an error that is never nil for the return
+							// to be excluded
+							if !definitelyNonNilErr(ops[ex.Index]) {
+								okAll = false
+							}
+							return
+						}
+						l := gp.lenOf(ops[sib.Index])
+						if !l.isConst() || (L >= 0 && l.c != L) {
+							okAll = false
+							return
+						}
+						L = l.c
+						n++
+					})
+					if okAll && n > 0 && L >= 0 {
+						out = append(out, gfact{e: p.lenOf(sib).add(gk(L), -1), eq: true})
+					}
+				}
+				if len(out) > 0 {
+					return out
+				}
+			}
+		}
 		if bt, ok := x.X.Type().Underlying().(*types.Basic); ok && bt.Info()&types.IsString != 0 {
 			if (op == token.EQL && truth) || (op == token.NEQ && !truth) {
 				return []gfact{{e: p.lenOf(x.X).add(p.lenOf(x.Y), -1), eq: true}}
